@@ -1,6 +1,7 @@
 import Vanguard.Lemmas.Headers
 import Vanguard.Lemmas.TargetHeaders
 import Vanguard.Model.Run
+import Vanguard.Lemmas.ReframeStream
 /-!
   C02 — Backend sees only valid requests in a protocol, codec and compression it accepts.
 
@@ -149,5 +150,32 @@ theorem no_leftover_control_headers (w : World) (t : TConf) (r : Req) (o : Op) (
 /-- Non-vacuity: the content types and encoding headers of the four RPC target forms. -/
 example : ServerForm.grpcWeb.contentType (s "proto") = some (s "application/grpc-web+" ++ s "proto") := rfl
 example : ServerForm.connectUnary.encodingHeader = some (s "Content-Encoding") := rfl
+
+/-- The four length bytes of an envelope decode to the length that was encoded (below 2^32). -/
+theorem fromBe32_be32 (n : Nat) (h : n < 4294967296) :
+    ∀ a b c d, be32 n = [a, b, c, d] → fromBe32 a b c d = n := by
+  intro a b c d hb
+  unfold be32 at hb
+  simp only [List.cons.injEq, and_true] at hb
+  obtain ⟨h1, h2, h3, h4⟩ := hb
+  subst h1 h2 h3 h4
+  unfold fromBe32
+  simp only [UInt8.toNat_ofNat']
+  omega
+
+/-- **The envelopes the backend reads describe the bytes that follow them** (re-framing path): for every
+    legal client frame the envelope written for the backend (`reframedAll` in C01 is the concatenation of
+    these envelopes and the payloads) carries exactly the compressed bit of the client's frame as its flag
+    byte and the payload's length as its length field. -/
+theorem backend_envelopes_describe_their_payloads (ce se : Enveloper) (x : Frame) (maxMsg : Nat) (hok : x.ok ce maxMsg)
+    (hlt : x.payload.length < 4294967296) :
+    ∃ env a b c d, ce.decode x.f x.a x.b x.c x.d = some env ∧
+      se.encode env = [if env.compressed then 1 else 0, a, b, c, d] ∧ fromBe32 a b c d = x.payload.length := by
+  obtain ⟨env, hdec, hnt, hlen, _⟩ := hok
+  refine ⟨env, UInt8.ofNat (env.length / 16777216 % 256), UInt8.ofNat (env.length / 65536 % 256), UInt8.ofNat (env.length / 256 % 256), UInt8.ofNat (env.length % 256), hdec, ?_, ?_⟩
+  · unfold Enveloper.encode Enveloper.encodeFlags be32
+    cases se <;> simp [hnt]
+  · rw [← hlen]
+    exact fromBe32_be32 env.length (by omega) _ _ _ _ rfl
 
 end Vanguard.C02
